@@ -141,6 +141,36 @@ func runC19(c *Ctx) error {
 		thr[i].Key = fmt.Sprintf("throttle%d", i)
 	}
 	Parallel(nth, func(i int) { c19Throttle(thr[i], 4+i%5, i%3) })
+
+	// CircuitBreaker beyond the closed state (CircuitBreakerTrace.tla)
+	TB := c.Trace("CircuitBreakerTrace")
+	nb := c.Pick(16, 400)
+	brs := make([]*tr.Run, nb)
+	type bcase struct {
+		trip, maxreq int
+		script       []string
+	}
+	bcs := make([]bcase, nb)
+	for i := range brs {
+		bc := bcase{trip: 1 + i%3, maxreq: 1 + (i/3)%2}
+		if i%7 == 6 {
+			bc.trip = 6 // gobreaker's default ReadyToTrip (more than 5 consecutive failures)
+		}
+		n := 8 + c.Rng.Intn(8)
+		for k := 0; k < n; k++ {
+			bc.script = append(bc.script, []string{"ok", "err", "err", "panic", "short", "long"}[c.Rng.Intn(6)])
+		}
+		// make sure the breaker opens and is tried again at least once
+		for k := 0; k < bc.trip; k++ {
+			bc.script = append(bc.script, "err")
+		}
+		bc.script = append(bc.script, "ok", "long", "ok", "ok", "err", "long", "err", "short", "ok")
+		bcs[i] = bc
+		brs[i] = TB.NewRun("breaker", map[string]any{"cfg": map[string]any{"trip": bc.trip, "timeout": int64(c19BreakerTimeout / time.Microsecond), "maxreq": bc.maxreq}})
+		brs[i].Key = fmt.Sprintf("breaker/%+v", bc)
+	}
+	Parallel(nb, func(i int) { c19Breaker(brs[i], bcs[i].trip, bcs[i].maxreq, bcs[i].script) })
+	c.AddStat("breaker_scripts", nb)
 	c.AddStat("throttle_runs", nth)
 	return nil
 }
@@ -318,6 +348,123 @@ func c19Run(r *tr.Run, cs c19Case) {
 		r.Emit("ret", "outs", os, "err", ec, "panic", pn, "ctx", ctx, "dl", dl, "delay", dly, "settle", settle)
 	}
 	r.NonTrivial = len(cs.Chain) > 0
+}
+
+const c19BreakerTimeout = 40 * time.Millisecond
+
+// c19Breaker drives one CircuitBreaker middleware through a script of handler outcomes and pauses, then checks the
+// half-open admission limit with trials held inside the handler.
+func c19Breaker(r *tr.Run, trip, maxreq int, script []string) {
+	st := gobreaker.Settings{Name: "cb", Timeout: c19BreakerTimeout, MaxRequests: uint32(maxreq)}
+	if trip != 6 {
+		st.ReadyToTrip = func(c gobreaker.Counts) bool { return int(c.ConsecutiveFailures) >= trip }
+	}
+	var mu sync.Mutex
+	outcome := "ok"
+	invoked := false
+	var hold chan struct{} // when set, the handler blocks on it (half-open trials in flight)
+	entered := make(chan struct{}, 8)
+	h := middleware.NewCircuitBreaker(st).Middleware(func(msg *message.Message) ([]*message.Message, error) {
+		mu.Lock()
+		invoked = true
+		o, hc := outcome, hold
+		mu.Unlock()
+		if hc != nil {
+			entered <- struct{}{}
+			<-hc
+		}
+		switch o {
+		case "err":
+			return nil, c19E1
+		case "panic":
+			panic("scripted panic value")
+		}
+		return []*message.Message{message.NewMessage("o", nil)}, nil
+	})
+	t0 := time.Now()
+	now := func() int64 { return int64(time.Since(t0) / time.Microsecond) }
+	call := func(o string) string {
+		mu.Lock()
+		outcome, invoked = o, false
+		mu.Unlock()
+		a := now()
+		var outs []*message.Message
+		var err error
+		p, _ := Guarded(func() { outs, err = h(message.NewMessage("m", nil)) })
+		b := now()
+		ret := "ok"
+		switch {
+		case p:
+			ret = "panic"
+		case err == gobreaker.ErrOpenState:
+			ret = "open"
+		case err == gobreaker.ErrTooManyRequests:
+			ret = "toomany"
+		case err == c19E1:
+			ret = "err"
+		case err != nil:
+			ret = "other:" + err.Error()
+		case len(outs) != 1:
+			ret = "lost-outputs"
+		}
+		mu.Lock()
+		inv := invoked
+		mu.Unlock()
+		r.Emit("cbcall", "t0", a, "t1", b, "invoked", inv, "outcome", o, "ret", ret)
+		return ret
+	}
+	for _, s := range script {
+		switch s {
+		case "short":
+			time.Sleep(time.Millisecond)
+		case "long":
+			time.Sleep(c19BreakerTimeout + 15*time.Millisecond)
+		default:
+			call(s)
+		}
+	}
+	// bring the breaker into the half-open state with maxreq trials held inside the handler
+	for k := 0; k < 8; k++ {
+		call("err")
+	}
+	time.Sleep(c19BreakerTimeout + 15*time.Millisecond)
+	hc := make(chan struct{})
+	mu.Lock()
+	outcome, hold = "ok", hc
+	mu.Unlock()
+	var wg sync.WaitGroup
+	for k := 0; k < maxreq; k++ {
+		wg.Add(1)
+		go func() { defer wg.Done(); _, _ = h(message.NewMessage("trial", nil)) }()
+		select {
+		case <-entered:
+		case <-time.After(HangBound):
+			r.Emit("hung", "what", "half-open trial not admitted")
+			close(hc)
+			return
+		}
+	}
+	mu.Lock()
+	invoked = false
+	mu.Unlock()
+	extra := make(chan error, 1)
+	go func() { _, err := h(message.NewMessage("extra", nil)); extra <- err }()
+	select {
+	case err := <-extra:
+		ret := "other"
+		if err == gobreaker.ErrTooManyRequests {
+			ret = "toomany"
+		} else if err != nil {
+			ret = "other:" + err.Error()
+		}
+		r.Emit("overflow", "invoked", false, "ret", ret)
+	case <-time.After(300 * time.Millisecond):
+		// it sits inside the handler: admitted beyond MaxRequests
+		r.Emit("overflow", "invoked", true, "ret", "admitted")
+	}
+	close(hc)
+	wg.Wait()
+	r.NonTrivial = true
 }
 
 // mode: 0 live messages; 1 messages whose context is already cancelled; 2 Throttle inside a Timeout shorter than the period
